@@ -18,6 +18,8 @@ func init() {
 			"PV-FRESH per-step group tables; PV-NUM: no aggregator accumulates the raw square of its input",
 			"PV-NUM sum: Apply is state += v, Result the state (no Inf - Inf); PV-INJKEY/MO: the grouping key of the retained labels is injective and independent of map iteration order",
 			"CH-MAP token -> vector/range operation tables of the parser",
+			"PV-ROLE build recursion: each recursive call is on an operand field of the current node (nested aggregations are not flattened)",
+			"PV-CMP comparators are not differences",
 		},
 		NotDecided: []string{"aggregate arithmetic (Welford, NaN handling)", "final ordering for ties", "container/heap correctness"},
 		Rules: func(r *Run) {
@@ -36,6 +38,9 @@ func init() {
 			ruleKeyEncoders(r) // one group per distinct retained label combination: the grouping key is injective and order-independent
 			ruleMO(r, 10, "aggregatedLabels", "newAggregatedLabels")
 			ruleCHParseSites2(r) // the operator a query spells is the operator that is evaluated (sort_desc is not sort)
+			ruleBuildDescendsOneLevel(r)
+			ruleBuildKeepsTree(r)
+			ruleComparatorsNoSubtraction(r, []string{enginePkg, metricPkg})
 		},
 	})
 }
